@@ -2,10 +2,11 @@
 EXTENDS AuthTokenSM, IOUtils
 MCSlots == {1, 2}
 Thorough == "VERIF_THOROUGH" \in DOMAIN IOEnv /\ IOEnv.VERIF_THOROUGH = "1"
-MCRoles == IF Thorough THEN {"consumer", "creator", "maintainer", "master", "nobody"} ELSE {"consumer", "master", "nobody"}
+MCRoles == IF Thorough THEN {"consumer", "creator", "maintainer", "master", "nobody"} ELSE {"consumer", "nobody"}
 MCKeys == {1, 2}
 MCDamage == IF Thorough THEN {"flip_body", "trunc5", "ext1"} ELSE {"flip_body", "trunc5"}
 MCJunk == {"random"}
+MCDurs == {"pos", "neg", "short"}
 MCPaths == {<<"apiPort">>, <<"v1", "topology">>, <<"bytes", "x">>, <<"bytes">>}
 MCMethods == {"GET", "POST"}
 
